@@ -17,6 +17,13 @@ type TypeEntry struct {
 	Tid   string
 	Expr  string // grammar shapes: the field / root type expression
 	Fam   string // grammar shapes: family for the distribution
+	Builtin string // built-in inspectors: "strings-s", "strings-b", "samap", "static"
+}
+
+// Builtins are the hand-written inspectors; they need no generated code.
+var Builtins = []*TypeEntry{
+	{Group: "builtin", Name: "[]string", Type: reflect.TypeOf([]string(nil)), Ins: inspector.StringsInspector{}, Builtin: "strings-s"},
+	{Group: "builtin", Name: "[][]byte", Type: reflect.TypeOf([][]byte(nil)), Ins: inspector.StringsInspector{}, Builtin: "strings-b"},
 }
 
 var Registry []*TypeEntry
